@@ -20,6 +20,8 @@ if "-j" in args:
     jobs = int(args[i + 1])
     del args[i:i + 2]
 IDS = ["C%02d" % i for i in range(1, 15)]
+# VERIF_ONLY=C01,C05: re-run only these checks (the ones whose rules changed); the recorded verdicts of the others are kept
+ONLY = [c for c in os.environ.get("VERIF_ONLY", "").split(",") if c]
 
 
 def one(d):
@@ -35,12 +37,15 @@ def one(d):
         if rc != 0:
             return name, "PATCH DOES NOT APPLY", {}
         env = dict(os.environ, VERIF_REPO=S + "/repo", VERIF_EVIDENCE_DIR=S + "/ev")
-        for pid in IDS:
+        if ONLY:
+            fired = {k: v for k, v in (meta.get("checks_fired_quick") or {}).items() if k not in ONLY}
+        for pid in (ONLY or IDS):
             q = subprocess.run(["/verif/check", pid, "quick"], env=env, stdout=subprocess.PIPE, stderr=subprocess.STDOUT, text=True)
             if q.returncode != 0:
                 fired[pid] = [l.strip()[:500] for l in q.stdout.split("\n") if l.startswith("  rule")][:2]
     finally:
         shutil.rmtree(S, ignore_errors=True)
+    fired = {k: fired[k] for k in sorted(fired)}
     meta["checks_fired_quick"] = fired
     meta["caught_by_target_check"] = meta["property"] in fired
     json.dump(meta, open(os.path.join(d, "meta.json"), "w"), indent=1)
